@@ -44,8 +44,14 @@ pub fn gen(tier: &str, seed: u64, idx: u64, base: u64) -> Spec {
         let open: Vec<usize> = goals.iter().cloned().filter(|&g| world.goals[g].contains("exists")).collect();
         let g = if !open.is_empty() && rng.coin(40) { *rng.pick(&open) } else { *rng.pick(&goals) };
         ops.push(Op { kind: OpKind::Limited(Sched::Never), slot: 0, goal: g, fault: None });
-        // follow-ups: always re-ask the same goal first, then a PRNG-drawn tail
-        ops.push(Op { kind: OpKind::Solve, slot: rng.below(slots.len()), goal: g, fault: None });
+        // follow-ups: usually re-ask the same goal first (40 %: another goal first — re-asking the interrupted goal may
+        // repair what the interruption left behind), then a PRNG-drawn tail
+        if goals.len() < 2 || rng.coin(60) {
+            ops.push(Op { kind: OpKind::Solve, slot: rng.below(slots.len()), goal: g, fault: None });
+        } else {
+            let others: Vec<usize> = goals.iter().cloned().filter(|&x| x != g).collect();
+            ops.push(Op { kind: OpKind::Solve, slot: rng.below(slots.len()), goal: *rng.pick(&others), fault: None });
+        }
         // small worlds: sweep every goal afterwards (a poisoned entry may belong to another member of a cycle)
         if goals.len() <= 14 && rng.coin(50) {
             let mut all = goals.clone();
